@@ -159,6 +159,7 @@ type shape struct {
 	MetaOK bool // hand label: the candidate answers with valid metadata named foo (given a version with MetaOK)
 	Quick  bool
 	Family string // differential family: "exe" (base dir-exe) or "nonexec" (base dir-nonexec)
+	Sub    bool   // generated sub-directory shape: combined with the reduced version set only
 }
 
 const srcDirName = "pkg"
@@ -183,18 +184,8 @@ var shapes = []shape{
 	{"dir-exe+after", "dir", func(v string) []sfile { return []sfile{cand(0o755)(v), after} }, true, true, true, "exe"},
 	{"dir-nonexec+before", "dir", func(v string) []sfile { return []sfile{before, cand(0o644)(v)} }, true, true, false, "nonexec"},
 	{"dir-nonexec+after", "dir", func(v string) []sfile { return []sfile{cand(0o644)(v), after} }, true, true, true, "nonexec"},
-	{"dir-exe+subdir", "dir", func(v string) []sfile { return []sfile{cand(0o755)(v), subExe("sub"), subData("sub")} }, true, true, true, "exe"},
-	{"dir-nonexec+subdir", "dir", func(v string) []sfile { return []sfile{cand(0o644)(v), subExe("sub"), subData("sub")} }, true, true, false, "nonexec"},
-	// a sub-directory that carries the same name as the source directory itself
-	{"dir-exe+subdir-named-like-source", "dir", func(v string) []sfile {
-		return []sfile{cand(0o755)(v), subExe(srcDirName), subData(srcDirName)}
-	}, true, true, true, "exe"},
-	{"dir-nonexec+subdir-named-like-source", "dir", func(v string) []sfile {
-		return []sfile{cand(0o644)(v), subExe(srcDirName), subData(srcDirName)}
-	}, true, true, true, "nonexec"},
-	{"dir-exe+before+after+subdir", "dir", func(v string) []sfile {
-		return []sfile{before, cand(0o755)(v), after, subExe("sub"), subData("sub")}
-	}, true, true, false, "exe"},
+	{"dir-exe+before+after", "dir", func(v string) []sfile { return []sfile{before, cand(0o755)(v), after} }, true, true, true, "exe"},
+	{"dir-nonexec+before+after", "dir", func(v string) []sfile { return []sfile{before, cand(0o644)(v), after} }, true, true, false, "nonexec"},
 	{"dir-exe+nonexec-other-name", "dir", func(v string) []sfile {
 		return []sfile{cand(0o755)(v), {"notation-zzz", 0o644, stub("zzz", v, false)}}
 	}, true, true, false, "exe"},
@@ -217,6 +208,85 @@ var shapes = []shape{
 	{"dir-no-notation-name", "dir", func(v string) []sfile {
 		return []sfile{{"foo-plugin", 0o755, stub(pluginName, v, false)}}
 	}, false, true, false, ""},
+}
+
+// Sub-directory shapes: candidate {executable, non-executable} x extra files
+// {none, before, after, both} x position of the sub-directory in the sorted
+// listing of the source {before all top-level files, between the before-file
+// and the candidate, named like the source directory (after the candidate,
+// before the after-file), after all} x {sub-directory holds files - one named
+// like the plugin executable and answering 9.9.9 -, sub-directory empty}.
+// The hand labels do not depend on any of this: sub-directories are ignored.
+var subPositions = []struct{ tag, name string }{
+	{"first", "000sub"},               // sorts before a-lib.txt
+	{"middle", "m-sub"},               // a-lib.txt < m-sub < notation-foo
+	{"named-like-source", srcDirName}, // notation-foo < pkg < zz-readme.txt, same name as the source directory
+	{"last", "zzz-sub"},               // sorts after zz-readme.txt
+}
+
+// quickSub selects the sub-directory shapes of the quick tier.
+var quickSub = map[string]bool{
+	"dir-exe+before+after+subdir-first-files":       true,
+	"dir-exe+before+after+subdir-first-empty":       true,
+	"dir-exe+before+after+subdir-middle-files":      true,
+	"dir-exe+before+after+subdir-middle-empty":      true,
+	"dir-exe+before+after+subdir-last-files":        true,
+	"dir-exe+subdir-first-files":                    true,
+	"dir-exe+subdir-last-files":                     true,
+	"dir-nonexec+after+subdir-first-files":          true,
+	"dir-nonexec+after+subdir-middle-files":         true,
+	"dir-exe+subdir-named-like-source":              true,
+	"dir-nonexec+subdir-named-like-source":          true,
+	"dir-exe+before+after+subdir-named-like-source": true,
+}
+
+func init() {
+	for _, c := range []struct {
+		tag  string
+		mode os.FileMode
+	}{{"exe", 0o755}, {"nonexec", 0o644}} {
+		for _, ex := range []struct {
+			tag           string
+			before, after bool
+		}{{"", false, false}, {"+before", true, false}, {"+after", false, true}, {"+before+after", true, true}} {
+			for _, pos := range subPositions {
+				for _, filled := range []bool{true, false} {
+					label := "dir-" + c.tag + ex.tag + "+subdir-" + pos.tag
+					switch {
+					case pos.tag == "named-like-source" && !filled:
+						continue
+					case pos.tag == "named-like-source":
+					case filled:
+						label += "-files"
+					default:
+						label += "-empty"
+					}
+					c, ex, pos, filled := c, ex, pos, filled
+					shapes = append(shapes, shape{label, "dir", func(v string) []sfile {
+						var fs []sfile
+						if ex.before {
+							fs = append(fs, before)
+						}
+						fs = append(fs, cand(c.mode)(v))
+						if ex.after {
+							fs = append(fs, after)
+						}
+						if filled {
+							fs = append(fs, subExe(pos.name), subData(pos.name))
+						} else {
+							fs = append(fs, sfile{pos.name, os.ModeDir | 0o755, ""})
+						}
+						return fs
+					}, true, true, quickSub[label], c.tag, true})
+				}
+			}
+		}
+	}
+	for l := range quickSub {
+		if shapeOf(l) == nil {
+			panic("quickSub names an unknown shape: " + l)
+		}
+	}
 }
 
 func shapeOf(label string) *shape {
@@ -267,6 +337,12 @@ func buildSource(base string, sh *shape, v string) (srcDesc, error) {
 		return d, err
 	}
 	for _, f := range sh.Files(v) {
+		if f.Mode.IsDir() { // an empty sub-directory
+			if err := os.MkdirAll(filepath.Join(d.Path, filepath.FromSlash(f.Rel)), 0o755); err != nil {
+				return d, err
+			}
+			continue
+		}
 		if err := writeFile(filepath.Join(d.Path, filepath.FromSlash(f.Rel)), f.Mode, f.Body); err != nil {
 			return d, err
 		}
@@ -988,6 +1064,11 @@ func alphabet(thorough bool) (ops []op, vs []ver, shs []shape) {
 	for _, v := range vs {
 		for _, ow := range []bool{false, true} {
 			for _, s := range shs {
+				if s.Sub && !v.Quick {
+					// what a sub-directory does to an installation does not depend on the
+					// version: these shapes meet the six versions of the quick set only
+					continue
+				}
 				ops = append(ops, op{"install", v.S, ow, s.Label})
 			}
 		}
@@ -1140,7 +1221,11 @@ func search(r *hx.Run) {
 								continue
 							}
 							vo := op{"install", v.S, ow, sh.Label}
-							vr := results[si*len(ops)+opIdx[vo]]
+							vi, ok := opIdx[vo]
+							if !ok {
+								continue
+							}
+							vr := results[si*len(ops)+vi]
 							if vr == nil || vr.Infra != "" || base.Infra != "" {
 								continue
 							}
@@ -1171,6 +1256,14 @@ func search(r *hx.Run) {
 	r.Extra["operations_per_state"] = len(ops)
 	r.Extra["versions"] = len(vs)
 	r.Extra["source_shapes"] = len(shs)
+	nsub := 0
+	for _, s := range shs {
+		if s.Sub {
+			nsub++
+		}
+	}
+	r.Extra["source_shapes_with_generated_subdirectory"] = nsub
+	r.Extra["alphabet"] = "Install: (plain shapes x all versions + sub-directory shapes x the six quick versions) x overwrite; Uninstall(foo)"
 	r.Extra["initial_states"] = len(inits)
 	r.Extra["worker_processes"] = nw
 	var byModel = map[string]int{}
